@@ -57,7 +57,7 @@ type FaultScenario struct {
 func DrawScenario(t *rapid.T, states []string) *FaultScenario {
 	pol := appencryption.NewCryptoPolicy()
 	pol.ExpireKeyAfter = rapid.SampledFrom([]time.Duration{2 * time.Minute, time.Hour}).Draw(t, "expire")
-	pol.RevokeCheckInterval = rapid.SampledFrom([]time.Duration{time.Second, 10 * time.Second}).Draw(t, "interval")
+	pol.RevokeCheckInterval = rapid.SampledFrom([]time.Duration{time.Second, 10 * time.Second, 2 * time.Hour}).Draw(t, "interval")
 	pol.CreateDatePrecision = rapid.SampledFrom([]time.Duration{0, time.Second, time.Minute}).Draw(t, "precision")
 	DrawCaches(t, pol, Options{})
 	pol.CacheSessions = false // session caching adds asynchronous teardown, irrelevant to fault positions
